@@ -544,6 +544,14 @@ func GenRounds(rnd *rand.Rand, persist bool) RHist {
 	if rnd.Intn(3) == 0 {
 		alpha = []byte("01a")
 	}
+	switch rnd.Intn(12) {
+	case 0:
+		alpha = []byte("9a")
+	case 1:
+		alpha = []byte("0ef")
+	case 2:
+		alpha = []byte("0123456789abcdef")
+	}
 	maxLen := 1 + rnd.Intn(3)
 	longKeys := rnd.Intn(6) == 0
 	var pool [][]byte
